@@ -13,6 +13,7 @@
 #include "../ref/orcref.h"
 
 static int shard, nshards, thorough, want_float;
+static const char *only_op;
 static const char *path = "emulate";
 static OrcTarget *target;
 static unsigned tflags;
@@ -361,6 +362,7 @@ static void worker (long start, void *user)
     char key[120];
     if (oi < start || (oi % nshards) != shard) continue;
     if (isf != want_float) continue;
+    if (only_op && strcmp (only_op, o->name)) continue;
     snprintf (key, sizeof (key), "%s|crash|%s|%s", want_float ? "C18" : "C02", path, o->name);
     v_case (oi, key, o->name);
     v_watchdog (thorough ? 3000 : 600);
@@ -390,6 +392,7 @@ int main (int argc, char **argv)
   thorough = !strcmp (v_arg (argc, argv, "--tier", "quick"), "thorough");
   want_float = !strcmp (v_arg (argc, argv, "--classes", "int"), "float");
   path = v_arg (argc, argv, "--path", "emulate");
+  only_op = v_arg (argc, argv, "--only", NULL);
   if (dl > 0) v_deadline = v_now () + dl;
   v_supervise (worker, NULL, want_float ? "C18" : "C02");
   return 0;
